@@ -1,10 +1,63 @@
 import PewDriver.Util
+import PewModel.Convolve
 open Lean
 namespace PewDriver.C18
-open PewDriver
+open PewDriver Pew.Convolve
 
-def handle (op : String) (_req : Json) : R Json := do
+def jRats (l : List Rat) : Json := jList jRat l
+
+def handle (op : String) (req : Json) : R Json := do
   match op with
+  | "c18.convolve" =>
+    let x ← getList asRat req "x"
+    let psf ← getList asRat req "psf"
+    if psf.isEmpty || x.isEmpty then throw "empty input"
+    let m := psf.length
+    let n := x.length
+    let out := convolvePad x psf
+    -- specification: length, ordinary convolution away from the edges, constants reproduced
+    let shiftC := m - 1 - m / 2
+    let interior := (List.range n).filter (fun k => decide (m / 2 ≤ k) && decide (k + shiftC < n))
+    let const : Option Rat :=
+      match x with
+      | c :: rest => if rest.all (· == c) && psf.sum == 1 then some c else none
+      | [] => none
+    pure (jObj [("model", jRats out),
+                ("spec", jObj [("length", jNat n),
+                               ("interior", jList (fun k => jList id [jNat k, jRat (fullConvAt x psf (k + shiftC))]) interior),
+                               ("constant", jOpt jRat const)])])
+  | "c18.deconv" =>
+    let x ← getList asRat req "x"
+    let psf ← getList asRat req "psf"
+    if psf.isEmpty || x.isEmpty then throw "empty input"
+    let c := fullConv x psf
+    pure (jObj [("c", jRats c), ("model", jRats (deconvolve c psf)), ("model_same", jRats (deconvolveSame c psf)),
+                ("spec", jRats (x.take (c.length - psf.length - 1)))])
+  | "c18.erf" =>
+    let xs ← getList asRat req "xs"
+    pure (jObj [("model", jRats (xs.map erfApprox))])
+  | "c18.gamma" =>
+    let xs ← getList asRat req "xs"
+    pure (jObj [("model", jRats (xs.map gammaApprox))])
+  | "c18.axis" =>
+    let kind ← getStr req "kind"
+    let size ← getNat req "size"
+    let scale ← getRat req "scale"
+    let shift ← getRat req "shift"
+    let ax ← match kind with
+      | "sym" => pure (axisSym size scale shift)
+      | "pos" => pure (axisPos size scale shift)
+      | "unit" => pure (axisUnit size scale shift)
+      | _ => throw s!"bad axis kind {kind}"
+    pure (jObj [("x", jRats ax)])
+  | "c18.triangular" =>
+    let size ← getNat req "size"
+    let a ← getRat req "a"
+    let b ← getRat req "b"
+    let scale ← getRat req "scale"
+    let shift ← getRat req "shift"
+    let (x, y) := triangular size a b scale shift
+    pure (jObj [("x", jRats x), ("y", jRats y)])
   | _ => throw s!"unknown op {op}"
 
 end PewDriver.C18
